@@ -7,11 +7,21 @@ import shapes
 COUNT = {"quick": 1200, "thorough": 30000}
 
 
-def thread_prog(rng, u, nacq, allow_panic, data_ops, only=None, sh=0.35, sweep=0.0):
+def thread_prog(rng, u, nacq, allow_panic, data_ops, only=None, sh=0.35, sweep=0.0, nonacq=0.0):
+    """nonacq: probability of a non-acquiring call (Debug formatting, is_poisoned) before an acquisition and inside a
+    guard's hold: they must neither wait nor disturb what any thread holds (their raw try operations are scheduling points)"""
     b = u.b
     ops = []
+
+    def quiet():
+        c = rng.choice(u.roots)
+        if b.desc[c].startswith("P(") and rng.random() < 0.3:
+            return ("ispoisoned", c)
+        return ("fmt", c)
     for _ in range(nacq):
         ops.append(("get",))
+        if rng.random() < nonacq:
+            ops.append(quiet())
         cid = rng.choice(only or u.roots)
         mode = "sh" if b.sharable[cid] and b.locks_of[cid] and rng.random() < sh else "ex"
         n = len(b.locks_of[cid])
@@ -25,6 +35,8 @@ def thread_prog(rng, u, nacq, allow_panic, data_ops, only=None, sh=0.35, sweep=0
                 if n:
                     pos = rng.randrange(n)
                     ops.append(("gwrite", pos) if mode == "ex" and rng.random() < 0.6 else ("gread", pos))
+            if rng.random() < nonacq:
+                ops.append(("fmt", cid) if rng.random() < 0.5 else quiet())
             if allow_panic and rng.random() < (0.5 if data_ops == 10 else 0.15):
                 ops.append(("panic",))
             else:
@@ -147,7 +159,8 @@ def gen(pid, tier, rng, n=None):
         for t in range(nt):
             progs.append((t, thread_prog(rng, u, rng.randint(1, 3), (pid in ("C01", "C02", "C03", "C05") and rng.random() < 0.3) or (pid == "C10" and rng.random() < 0.8),
                                          2 if pid == "C02" else 1, only if t == 0 else (others if others and rng.random() < 0.8 else None),
-                                         sh0 if t == 0 else 0.35, sweep=0.35 if pid == "C02" else 0.0)))
+                                         sh0 if t == 0 else 0.35, sweep=0.35 if pid == "C02" else 0.0,
+                                         nonacq=0.2 if rng.random() < 0.4 else 0.0)))
         handoff = None
         if pid == "C10" and rng.random() < 0.2:
             # hand-off template: thread 0 panics while it holds a poisonable root exclusively; thread 1 is already waiting
